@@ -340,6 +340,27 @@ def r07_2(ctx, g):
     unknown_writes = [st for st, x in zip(w.body, seq) if x is None and any(isinstance(c, ast.Call) and isinstance(c.func, ast.Attribute) and c.func.attr in ("write", "writelines") for c in ast.walk(st))]
     okc = letters == ["S", "L"] and len(files) == 1 and not unknown_writes
     ctx.check(okc, "R07.2", run.where(w), "the complete file copies the S lines of every per-chromosome file first and the L lines afterwards, each pass filtering on its own record letter and writing directly", key_of(run, f"concat:{letters}:{sorted(files)}:{len(unknown_writes)}"), passes=letters)
+    # every per-chromosome file that is written is also registered for the concatenation: the list the passes iterate
+    # receives, in the chromosome loop, the very path that write_gfa is given
+    cl = m.loop
+    wcalls = [c for c in ast.walk(cl) if isinstance(c, ast.Call) and isinstance(c.func, ast.Attribute) and c.func.attr in ("write_gfa", "write_graph")]
+    for fl in sorted(files):
+        apps = [c for c in ast.walk(cl) if isinstance(c, ast.Call) and isinstance(c.func, ast.Attribute) and c.func.attr == "append" and norm(c.func.value) == fl and c.args]
+        if not wcalls:
+            raise AnalysisError("R07.2", run.where(cl), "cannot find where the per-chromosome GFA is written in the chromosome loop")
+        wc = wcalls[0]
+        out_arg = next((k.value for k in wc.keywords if k.arg == "output_file"), None)
+        if out_arg is None:
+            cal = repo.resolve_call(run, wc)
+            ba = repo.bound_args(cal, wc) if cal is not None and hasattr(repo, "bound_args") else {}
+            out_arg = (ba or {}).get("output_file")
+        if out_arg is None:
+            raise AnalysisError("R07.2", run.where(wc), "cannot find the path the per-chromosome GFA is written to")
+        if not apps:
+            ctx.violated("R07.2", run.where(cl), f"the per-chromosome files are written but never added to `{fl}`, the list the complete file is put together from: the complete file lacks the chromosomes", key_of(run, f"concat-list-not-filled:{fl}"))
+        else:
+            ok_app = all(norm(a.args[0]) == norm(out_arg) for a in apps) and len(apps) == 1
+            ctx.check(ok_app, "R07.2", run.where(apps[0]), f"the path written by write_gfa (`{norm(out_arg)}`) is the one registered in `{fl}` for the concatenation, once per chromosome", key_of(run, f"concat-list-path:{[norm(a.args[0]) for a in apps]}"))
     # the files are concatenated in the order in which the chromosomes were written (= BO order): the list of files is
     # not re-ordered or de-duplicated through a set between the chromosome loop and the concatenation
     for fl in sorted(files):
